@@ -4,7 +4,8 @@ import glob
 import os
 
 PROPS = {}
-for _f in sorted(glob.glob(os.path.join(os.path.dirname(os.path.abspath(__file__)), "props", "C*.py"))):
+_dirs = ["props"] + (["props_wip"] if os.environ.get("VERIF_WIP") == "1" else [])
+for _f in sorted(sum((glob.glob(os.path.join(os.path.dirname(os.path.abspath(__file__)), _d, "C*.py")) for _d in _dirs), [])):
     _ns = {}
     with open(_f) as _h:
         exec(compile(_h.read(), _f, "exec"), _ns)
